@@ -54,6 +54,12 @@ def main():
                     delays = [float(x) for x in rng.choice([0.0, 0.02, 0.05], size=n)]
                     scs.append({"np": npr, "n_tasks": n, "delays": delays, "fail_at": pos, "fail_type": ft, "second_call": bool(pos % 2 == 0)})
         scs.append({"np": 1, "n_tasks": 4, "delays": [0.0] * 4, "fail_at": 2, "fail_type": "ValueError"})
+        # as many (or more) failures as workers: in one call, and spread over consecutive calls
+        for npr in (2, 3):
+            for ft in ("ValueError", "Unpicklable"):
+                scs.append({"np": npr, "n_tasks": npr + 3, "delays": [0.02] * (npr + 3), "fail_at": list(range(npr)), "fail_type": ft, "second_call": True})
+                scs.append({"np": npr, "n_tasks": 2 * npr + 1, "delays": [0.01] * (2 * npr + 1), "fail_at": list(range(0, 2 * npr, 2)) + [2 * npr], "fail_type": ft, "second_call": True})
+                scs.append({"np": npr, "n_tasks": 3, "delays": [0.0, 0.02, 0.0], "fail_at": 1, "fail_type": ft, "repeat_failing": npr + 1, "second_call": True})
     shard, nsh = int(a.get("shard", 0)), int(a.get("nshards", 1))
     scs = [s for i, s in enumerate(scs) if i % nsh == shard]
     acc = Acc()
